@@ -97,7 +97,10 @@ func (d *Driver) checkTransition(o *elObj, from, to string) {
 		return
 	}
 	want := o.lastTo
-	if o.afterStart || want == "" {
+	if want == "" {
+		want = "CANDIDATE"
+	}
+	if o.afterStart && from == "CANDIDATE" {
 		want = "CANDIDATE"
 	}
 	if from != want && !(o.startInFlight > 0 && from == "CANDIDATE") {
